@@ -203,6 +203,25 @@ func (vc *VC) callFunction(st *State, fn *ssa.Function, args []Val, fvs []Val, r
 	switch key {
 	case "sync.(*Mutex).Lock", "sync.(*Mutex).Unlock", "sync.(*RWMutex).Lock", "sync.(*RWMutex).Unlock",
 		"sync.(*RWMutex).RLock", "sync.(*RWMutex).RUnlock":
+		if vc.contract != nil && vc.contract.TrackLocks && len(args) > 0 && args[0].K == KPtr && args[0].S != "" {
+			// lock discipline: ghost(lockst, m) is 0 (free), 1 (read-locked) or 2 (locked)
+			v := "0"
+			switch {
+			case strings.HasSuffix(key, ".RLock"):
+				v = "1"
+			case strings.HasSuffix(key, ".Lock"):
+				v = "2"
+			}
+			comp := "ghost:lockst"
+			if _, ok := vc.compSort[comp]; !ok {
+				vc.compSort[comp] = "(Array Int Int)"
+				vc.compMeta[comp] = compMetaT{kind: LGhost, t: specInt}
+			}
+			h := vc.heapGet(st, comp, "(Array Int Int)")
+			vc.heapSet(st, comp, "(Array Int Int)", store(h, args[0].S, v))
+			vc.assumptions["mutex operations only update the ghost lock state (sequential reasoning; no interleavings)"] = true
+			return Val{K: KUnit}
+		}
 		vc.assumptions["mutex operations are no-ops (sequential reasoning only)"] = true
 		return Val{K: KUnit}
 	}
@@ -1066,8 +1085,10 @@ func (vc *VC) doDefer(st *State, x *ssa.Defer) {
 	if fn := x.Call.StaticCallee(); fn != nil {
 		switch funcKey(fn) {
 		case "sync.(*Mutex).Unlock", "sync.(*RWMutex).Unlock", "sync.(*RWMutex).RUnlock":
-			vc.assumptions["mutex operations are no-ops (sequential reasoning only)"] = true
-			return
+			if vc.contract == nil || !vc.contract.TrackLocks {
+				vc.assumptions["mutex operations are no-ops (sequential reasoning only)"] = true
+				return
+			}
 		}
 	}
 	st.defers = append(append([]deferEntry{}, st.defers...), deferEntry{d: x, guard: "true"})
